@@ -15,6 +15,9 @@ package main
 //   case:   <id> up=<udp|tcp|tcp+pipeline|tls|tls+pipeline|https|h3|quic> x=<0|1>
 //   result: close=<ok|hang> close2=<ok|hang> after=<err|ok|hang> leak=<n>
 //
+// Kind "upown" (c18own.go): every upstream scheme driven so that every transport / socket it owns exists at
+// Close, idle and in flight; per-leg probes and socket counts (the upstream as a composite, Net/ShutdownOwn.v).
+//
 // Kind "startup": the real router (in-process VerifRun, or the real binary) with generated configurations
 // in which one initialisation step fails.
 //   case:   <id> mode=<inproc|bin> metrics=<0|1> nu=<n> nd=<n> nr=<n> srv=<proto,..> fail=<none|kind:idx> how=<..>
